@@ -400,6 +400,50 @@ func runC14(run *Run, seed int64, cfg hostCfg, items []int, id string, full bool
 			}
 		}
 	}
+	// 5b. a genuine message is still waiting for the application (the delegate is busy with an earlier one) when
+	// transmissions that do not authenticate arrive: it must reach the delegate unchanged afterwards
+	if cfg.EncVsn >= 0 {
+		gate := make(chan struct{})
+		v.rig.V.Del.mu.Lock()
+		v.rig.V.Del.Gate = gate
+		n0 := len(v.rig.V.Del.Msgs)
+		v.rig.V.Del.mu.Unlock()
+		first := append([]byte{TUser}, []byte(fmt.Sprintf("held-by-the-delegate-%d", tag))...)
+		second := append([]byte{TUser}, []byte(fmt.Sprintf("waiting-behind-it-%d-0123456789abcdef0123456789abcdef", tag))...)
+		inject := func(raw []byte) { v.rig.C.Net.Inject(v.rig.V.EP, v.x.EP.Addr, raw); Settle(time.Millisecond) }
+		inject(v.wrapPacket(first, false))
+		inject(v.wrapPacket(second, true))
+		genuine := v.wrapPacket(append([]byte{TUser}, []byte("a-third-one-whose-copy-is-tampered-with")...), false)
+		bad := append([]byte(nil), genuine...)
+		bad[len(bad)-1] ^= 0x40 // the tag
+		inject(bad)
+		inject(BuildPacket(PacketCfg{Label: cfg.Label, Key: k3, EncVsn: cfg.EncVsn}, second, rng)) // foreign key
+		if !cfg.Skip {
+			inject(append(LabelHeader(cfg.Label), second...)) // clear text
+		}
+		close(gate)
+		Settle(50 * time.Millisecond)
+		v.rig.V.Del.mu.Lock()
+		v.rig.V.Del.Gate = nil
+		got := append([][]byte(nil), v.rig.V.Del.Msgs[n0:]...)
+		v.rig.V.Del.mu.Unlock()
+		run.Cell("packet", "unauthentic-while-genuine-waits", fmt.Sprintf("enc=%d", cfg.EncVsn))
+		run.Eval(1)
+		want := [][]byte{first[1:], second[1:]}
+		ok := len(got) == 2
+		for _, w := range want {
+			found := false
+			for _, g := range got {
+				if bytes.Equal(g, w) {
+					found = true
+				}
+			}
+			ok = ok && found
+		}
+		if !ok {
+			fail("packet/unauthentic-while-genuine-waits", "two genuine user messages were waiting for a busy delegate when a tampered copy, a foreign-key packet and a clear-text packet arrived; the delegate then received %d message(s): %q (sent %q)", len(got), got, want)
+		}
+	}
 	// 6a. ... also when it is removed while a stream sealed under it is still arriving: the sender has sent the frame
 	// header (or part of the body), pauses, RemoveKey completes, the rest arrives
 	if cfg.EncVsn >= 0 {
